@@ -17,3 +17,4 @@ PROP = dict(
                dict='fuzz/C16.dict', corpus='corpus/C16',
                quick=dict(runs=150000, seeds=2), thorough=dict(runs=20000000, seeds=8, max_total_time=900))],
 )
+PROP['rule'] += ' Round-3 extension: in (b) the file is named to readXML by its path, by a symbolic link, by /proc/self/fd/N or by a path with // and ./ components; thorough tier: one document of 2^31 + d bytes.'
